@@ -3,7 +3,8 @@
 //! usage: verif_replay <scenario-file>
 //! scenario file (line based):
 //!   signal <in|out|bidir> <name> <bits> [default|Z]
-//!   driver value <const N | idx | echo | z | x>     how output values are produced (default const 0)
+//!   driver value <const N | idx | echo | z | x | seq V1 V2 ..>   how output values are produced (default const 0)
+//!          seq: the value of every output in call k is Vk (a number, z or x); the last one repeats
 //!          idx: value = 100 * (position of the signal in the signal list + 1) + call number
 //!   driver layout <fwd | rev | none | only NAME..>  order / subset of the outputs in every answer (default fwd)
 //!   driver deviate <swap|drop|dup|dupfirst> <N>     from call N on (dupfirst: only in call N): change the layout
@@ -95,6 +96,14 @@ impl<'s> Drv<'s> {
                     OutputValue::X
                 } else if v == "echo" {
                     OutputValue::Value(sum)
+                } else if let Some(rest) = v.strip_prefix("seq ") {
+                    let items: Vec<&str> = rest.split_whitespace().collect();
+                    let it = items[(self.calls - 1).min(items.len() - 1)];
+                    match it {
+                        "z" => OutputValue::Z,
+                        "x" => OutputValue::X,
+                        n => OutputValue::Value(n.parse().unwrap_or(0)),
+                    }
                 } else if v == "idx" {
                     OutputValue::Value(100 * (pos as i64 + 1) + self.calls as i64)
                 } else {
